@@ -83,6 +83,13 @@ class C07(Prop):
     def cases(self, rng: random.Random, tier: str) -> Iterable[dict]:
         # whatever the seed: a FRESH wrapper (no rename history yet, possibly mapped) whose first rename is a parallel swap — the wrapper it
         # was derived from must not change
+        # whatever the seed: a GATE added (add_nodes) to a graph that has already been run — routing of the derived graph must be the
+        # routing of the same graph built fresh (the gate says END for the probe values: its target must not run)
+        for _ in range(3):
+            nodes = [{"name": "f0", "inputs": ["x"], "outputs": ["o0"], "defaults": {}},
+                     {"name": "f1", "inputs": ["o0", "y1"] if rng.random() < 0.5 else ["x"], "outputs": ["o1"], "defaults": {}}]
+            yield {"nodes": nodes, "n_ops": rng.randint(1, 3), "seed": rng.randint(0, 10**6), "prefix": rng.choice([["addGate"], ["bind", "addGate"], ["select", "addGate"]]),
+                   "lateGate": {"name": "gt", "target": rng.choice(["f0", "f1"]), "k": rng.choice([0, 1])}}
         for prefix in (["asNode", "swapInputs"], ["asNode", "mapOver", "swapInputs"], ["asNode", "swapOutputs"], ["asNode", "swapInputs", "swapInputs"]):
             nodes = [{"name": "f0", "inputs": ["x", "y0"], "outputs": ["o0"], "defaults": {}},
                      {"name": "f1", "inputs": ["o0", "y1"], "outputs": ["o1"], "defaults": {"y1": rng.randint(20, 29)} if rng.random() < 0.5 else {}}]
@@ -121,6 +128,7 @@ class C07(Prop):
             objs.append(build.build_node(spec, 0, [], env, async_bodies=False))
         g0 = Graph(list(objs), name="g0")
         objs.append(g0)
+        self._gate = self._make_gate(case, env)
         snaps = [observe(o) for o in objs]
         ops: list[dict] = []
         rows: list[list] = []
@@ -160,7 +168,7 @@ class C07(Prop):
             if op["t"] in ("readInputs", "readHash"):
                 continue
             try:
-                again = self._reapply(op, objs)
+                again = self._reapply(op, objs, self._gate)
             except Exception as e:  # noqa: BLE001
                 influence = f"{op} on object {op['i']} worked when first applied, raises {type(e).__name__} when repeated after the later derivations"
                 break
@@ -180,8 +188,9 @@ class C07(Prop):
                         "dataOuts": n["outputs"], "body": {"b": "tag", "t": n["name"]}}
                 fresh_objs.append(build.build_node(spec, 0, [], env2, async_bodies=False))
             fresh_objs.append(Graph(list(fresh_objs), name="g0"))
+            fresh_gate = self._make_gate(case, env2)
             for op in ops:
-                fresh_objs.append(fresh_objs[op["i"]] if op["t"] in ("readInputs", "readHash") else self._reapply(op, fresh_objs))
+                fresh_objs.append(fresh_objs[op["i"]] if op["t"] in ("readInputs", "readHash") else self._reapply(op, fresh_objs, fresh_gate))
             for j, (a, b) in enumerate(zip(fresh_objs, objs)):
                 oa, ob = observe(a), observe(b)
                 if oa != ob:
@@ -193,9 +202,19 @@ class C07(Prop):
         return {"ops": ops, "rows": rows, "snaps": snaps, "drift": drift, "fresh": fresh, "influence": influence, "lineage": lineage}
 
     @staticmethod
-    def _reapply(op: dict, objs: list) -> Any:
+    def _make_gate(case: dict, env: Env) -> Any:
+        lg = case.get("lateGate")
+        if not lg:
+            return None
+        spec = {"name": lg["name"], "kind": "ifelse", "params": [["x", None]], "targets": [lg["target"], "__END__"], "body": {"b": "lt", "k": lg["k"]}, "defaultOpen": True}
+        return build.build_node(spec, 0, [], env, async_bodies=False)
+
+    @staticmethod
+    def _reapply(op: dict, objs: list, gate: Any = None) -> Any:
         recv = objs[op["i"]]
         t = op["t"]
+        if t == "addGate":
+            return recv.add_nodes(gate)
         if t == "bind":
             return recv.bind(**{op["k"]: op["v"]})
         if t == "unbind":
@@ -263,6 +282,10 @@ class C07(Prop):
                     return {"t": "readHash", "i": i}, recv
                 if choice == "addNone":
                     return {"t": "addNone", "i": i}, recv.add_nodes()       # the degenerate call: still a derivation, still a new object
+                if choice == "addGate":
+                    if self._gate is None or self._gate.name in recv.nodes:
+                        return None, None
+                    return {"t": "addGate", "i": i}, recv.add_nodes(self._gate)
                 # add an existing node object (any node created so far whose name and outputs are new to this graph)
                 cands = [k for k, o in enumerate(objs) if not isinstance(o, Graph) and o.name not in recv.nodes
                          and not (set(o.outputs) & set(recv.outputs))]
@@ -345,7 +368,7 @@ class C07(Prop):
             return None
         # `wrap` (a new Graph around an existing wrapper node) has no counterpart in the heap model: a no-op read keeps the numbering aligned,
         # the result and everything derived from it are judged by the oracles only
-        mops = [({"t": "readHash", "i": op["i"]} if op["t"] == "wrap" else op) for op in i["ops"]]
+        mops = [({"t": "readHash", "i": op["i"]} if op["t"] in ("wrap", "addGate") else op) for op in i["ops"]]
         m = driver.ask({"op": "heap", "nodes": case["nodes"], "ops": mops})
         if len(m["rows"]) != len(i["rows"]):
             return f"{len(i['rows'])} operations on the implementation side, {len(m['rows'])} rows from the model"
@@ -359,7 +382,7 @@ class C07(Prop):
             recv_obs = i["rows"][r][op["i"]]
             if op["t"] == "asNode" and (recv_obs.get("entry") is not None or recv_obs.get("selected") is not None):
                 tainted.add(res)
-            if op["t"] == "wrap":
+            if op["t"] in ("wrap", "addGate"):
                 tainted.add(res)
             if op["i"] in tainted or (op["t"] == "addNode" and op["j"] in tainted):
                 tainted.add(res)
